@@ -182,7 +182,7 @@ mod c16 {
         MarketConfigFlag::EnableMarketClosedParams, MarketConfigFlag::MarketClosedSkipBorrowingFeeForSmallerSide];
 
     #[kani::proof]
-    #[kani::unwind(8)]
+    #[kani::unwind(140)]
     fn c16_config_flags_write_read_frame() {
         let words: [u128; CW] = kani::any();
         let base: MarketConfig = bytemuck::cast(words);
@@ -253,5 +253,144 @@ mod c16 {
             *m.get_config_by_key_mut(KEYS[k]).unwrap() = 0;
             k += 1;
         }
+    }
+}
+
+mod c16_model {
+    // "... and through the market-model parameter it names": each key, written with a symbolic
+    // value on a zeroed market, is what the model accessor NAMED BY THE KEY returns -- and the
+    // opposite side's accessor (long vs short) still returns the zero background.
+    use super::super::{config::{MarketConfigFlag, MarketConfigKey as K}, Market};
+    use gmsol_model::{BaseMarket, BorrowingFeeMarket, PerpMarket, PnlFactorKind, PositionImpactMarket, SwapMarket};
+    use gmsol_utils::market::MarketFlag;
+
+    macro_rules! row {
+        ($m:ident, $v:ident, $key:ident, $same:expr $(, other = $other:expr)?) => {{
+            *$m.get_config_by_key_mut(K::$key).unwrap() = $v;
+            assert!($same == $v, concat!("key ", stringify!($key), " feeds its model parameter"));
+            $( assert!($other == 0, concat!("key ", stringify!($key), " does not feed the opposite side")); )?
+            *$m.get_config_by_key_mut(K::$key).unwrap() = 0;
+        }};
+    }
+
+    #[kani::proof]
+    fn c16_model_params_swap_position_fees() {
+        let mut m: Box<Market> = Box::new(bytemuck::Zeroable::zeroed());
+        let v: u128 = kani::any();
+        kani::assume(v != 0);
+        row!(m, v, SwapImpactExponent, *m.swap_impact_params().unwrap().exponent());
+        row!(m, v, SwapImpactPositiveFactor, *m.swap_impact_params().unwrap().positive_factor(), other = *m.swap_impact_params().unwrap().negative_factor());
+        row!(m, v, SwapImpactNegativeFactor, *m.swap_impact_params().unwrap().negative_factor(), other = *m.swap_impact_params().unwrap().positive_factor());
+        row!(m, v, SwapFeeReceiverFactor, *m.swap_fee_params().unwrap().receiver_factor(), other = *m.order_fee_params().unwrap().receiver_factor());
+        row!(m, v, OrderFeeReceiverFactor, *m.order_fee_params().unwrap().receiver_factor(), other = *m.swap_fee_params().unwrap().receiver_factor());
+        row!(m, v, MinPositionSizeUsd, *m.position_params().unwrap().min_position_size_usd());
+        row!(m, v, MinCollateralValue, *m.position_params().unwrap().min_collateral_value());
+        row!(m, v, MinCollateralFactor, *m.position_params().unwrap().min_collateral_factor());
+        row!(m, v, MinCollateralFactorForOpenInterestMultiplierForLong, m.min_collateral_factor_for_open_interest_multiplier(true).unwrap(), other = m.min_collateral_factor_for_open_interest_multiplier(false).unwrap());
+        row!(m, v, MinCollateralFactorForOpenInterestMultiplierForShort, m.min_collateral_factor_for_open_interest_multiplier(false).unwrap(), other = m.min_collateral_factor_for_open_interest_multiplier(true).unwrap());
+        row!(m, v, MaxPositivePositionImpactFactor, *m.position_params().unwrap().max_positive_position_impact_factor(), other = *m.position_params().unwrap().max_negative_position_impact_factor());
+        row!(m, v, MaxNegativePositionImpactFactor, *m.position_params().unwrap().max_negative_position_impact_factor(), other = *m.position_params().unwrap().max_positive_position_impact_factor());
+        row!(m, v, MaxPositionImpactFactorForLiquidations, *m.position_params().unwrap().max_position_impact_factor_for_liquidations());
+        row!(m, v, PositionImpactExponent, *m.position_impact_params().unwrap().exponent());
+        row!(m, v, PositionImpactPositiveFactor, *m.position_impact_params().unwrap().positive_factor(), other = *m.position_impact_params().unwrap().negative_factor());
+        row!(m, v, PositionImpactNegativeFactor, *m.position_impact_params().unwrap().negative_factor(), other = *m.position_impact_params().unwrap().positive_factor());
+        row!(m, v, PositionImpactDistributeFactor, *m.position_impact_distribution_params().unwrap().distribute_factor());
+        row!(m, v, MinPositionImpactPoolAmount, *m.position_impact_distribution_params().unwrap().min_position_impact_pool_amount());
+    }
+
+    #[kani::proof]
+    fn c16_model_params_borrowing_funding() {
+        let mut m: Box<Market> = Box::new(bytemuck::Zeroable::zeroed());
+        let v: u128 = kani::any();
+        kani::assume(v != 0);
+        row!(m, v, BorrowingFeeReceiverFactor, *m.borrowing_fee_params().unwrap().receiver_factor());
+        row!(m, v, BorrowingFeeFactorForLong, *m.borrowing_fee_params().unwrap().factor(true), other = *m.borrowing_fee_params().unwrap().factor(false));
+        row!(m, v, BorrowingFeeFactorForShort, *m.borrowing_fee_params().unwrap().factor(false), other = *m.borrowing_fee_params().unwrap().factor(true));
+        row!(m, v, BorrowingFeeExponentForLong, *m.borrowing_fee_params().unwrap().exponent(true), other = *m.borrowing_fee_params().unwrap().exponent(false));
+        row!(m, v, BorrowingFeeExponentForShort, *m.borrowing_fee_params().unwrap().exponent(false), other = *m.borrowing_fee_params().unwrap().exponent(true));
+        row!(m, v, BorrowingFeeOptimalUsageFactorForLong, *m.borrowing_fee_kink_model_params().unwrap().optimal_usage_factor(true), other = *m.borrowing_fee_kink_model_params().unwrap().optimal_usage_factor(false));
+        row!(m, v, BorrowingFeeOptimalUsageFactorForShort, *m.borrowing_fee_kink_model_params().unwrap().optimal_usage_factor(false), other = *m.borrowing_fee_kink_model_params().unwrap().optimal_usage_factor(true));
+        row!(m, v, BorrowingFeeBaseFactorForLong, *m.borrowing_fee_kink_model_params().unwrap().base_borrowing_factor(true), other = *m.borrowing_fee_kink_model_params().unwrap().base_borrowing_factor(false));
+        row!(m, v, BorrowingFeeBaseFactorForShort, *m.borrowing_fee_kink_model_params().unwrap().base_borrowing_factor(false), other = *m.borrowing_fee_kink_model_params().unwrap().base_borrowing_factor(true));
+        row!(m, v, BorrowingFeeAboveOptimalUsageFactorForLong, *m.borrowing_fee_kink_model_params().unwrap().above_optimal_usage_borrowing_factor(true), other = *m.borrowing_fee_kink_model_params().unwrap().above_optimal_usage_borrowing_factor(false));
+        row!(m, v, BorrowingFeeAboveOptimalUsageFactorForShort, *m.borrowing_fee_kink_model_params().unwrap().above_optimal_usage_borrowing_factor(false), other = *m.borrowing_fee_kink_model_params().unwrap().above_optimal_usage_borrowing_factor(true));
+        row!(m, v, FundingFeeExponent, *m.funding_fee_params().unwrap().exponent());
+        row!(m, v, FundingFeeFactor, *m.funding_fee_params().unwrap().factor());
+        row!(m, v, FundingFeeMaxFactorPerSecond, *m.funding_fee_params().unwrap().max_factor_per_second(), other = *m.funding_fee_params().unwrap().min_factor_per_second());
+        row!(m, v, FundingFeeMinFactorPerSecond, *m.funding_fee_params().unwrap().min_factor_per_second(), other = *m.funding_fee_params().unwrap().max_factor_per_second());
+        row!(m, v, FundingFeeIncreaseFactorPerSecond, *m.funding_fee_params().unwrap().increase_factor_per_second(), other = *m.funding_fee_params().unwrap().decrease_factor_per_second());
+        row!(m, v, FundingFeeDecreaseFactorPerSecond, *m.funding_fee_params().unwrap().decrease_factor_per_second(), other = *m.funding_fee_params().unwrap().increase_factor_per_second());
+        row!(m, v, FundingFeeThresholdForStableFunding, *m.funding_fee_params().unwrap().threshold_for_stable_funding(), other = *m.funding_fee_params().unwrap().threshold_for_decrease_funding());
+        row!(m, v, FundingFeeThresholdForDecreaseFunding, *m.funding_fee_params().unwrap().threshold_for_decrease_funding(), other = *m.funding_fee_params().unwrap().threshold_for_stable_funding());
+    }
+
+    #[kani::proof]
+    fn c16_model_params_limits() {
+        let mut m: Box<Market> = Box::new(bytemuck::Zeroable::zeroed());
+        let v: u128 = kani::any();
+        kani::assume(v != 0);
+        row!(m, v, ReserveFactor, m.reserve_factor().unwrap(), other = m.open_interest_reserve_factor().unwrap());
+        row!(m, v, OpenInterestReserveFactor, m.open_interest_reserve_factor().unwrap(), other = m.reserve_factor().unwrap());
+        row!(m, v, MaxPnlFactorForLongDeposit, m.pnl_factor_config(PnlFactorKind::MaxAfterDeposit, true).unwrap(), other = m.pnl_factor_config(PnlFactorKind::MaxAfterDeposit, false).unwrap());
+        row!(m, v, MaxPnlFactorForShortDeposit, m.pnl_factor_config(PnlFactorKind::MaxAfterDeposit, false).unwrap(), other = m.pnl_factor_config(PnlFactorKind::MaxAfterDeposit, true).unwrap());
+        row!(m, v, MaxPnlFactorForLongWithdrawal, m.pnl_factor_config(PnlFactorKind::MaxAfterWithdrawal, true).unwrap(), other = m.pnl_factor_config(PnlFactorKind::MaxAfterWithdrawal, false).unwrap());
+        row!(m, v, MaxPnlFactorForShortWithdrawal, m.pnl_factor_config(PnlFactorKind::MaxAfterWithdrawal, false).unwrap(), other = m.pnl_factor_config(PnlFactorKind::MaxAfterWithdrawal, true).unwrap());
+        row!(m, v, MaxPnlFactorForLongTrader, m.pnl_factor_config(PnlFactorKind::MaxForTrader, true).unwrap(), other = m.pnl_factor_config(PnlFactorKind::MaxForTrader, false).unwrap());
+        row!(m, v, MaxPnlFactorForShortTrader, m.pnl_factor_config(PnlFactorKind::MaxForTrader, false).unwrap(), other = m.pnl_factor_config(PnlFactorKind::MaxForTrader, true).unwrap());
+        row!(m, v, MaxPnlFactorForLongAdl, m.pnl_factor_config(PnlFactorKind::ForAdl, true).unwrap(), other = m.pnl_factor_config(PnlFactorKind::ForAdl, false).unwrap());
+        row!(m, v, MaxPnlFactorForShortAdl, m.pnl_factor_config(PnlFactorKind::ForAdl, false).unwrap(), other = m.pnl_factor_config(PnlFactorKind::ForAdl, true).unwrap());
+        row!(m, v, MinPnlFactorAfterLongAdl, m.pnl_factor_config(PnlFactorKind::MinAfterAdl, true).unwrap(), other = m.pnl_factor_config(PnlFactorKind::MinAfterAdl, false).unwrap());
+        row!(m, v, MinPnlFactorAfterShortAdl, m.pnl_factor_config(PnlFactorKind::MinAfterAdl, false).unwrap(), other = m.pnl_factor_config(PnlFactorKind::MinAfterAdl, true).unwrap());
+        row!(m, v, MaxPoolAmountForLongToken, m.max_pool_amount(true).unwrap(), other = m.max_pool_amount(false).unwrap());
+        row!(m, v, MaxPoolAmountForShortToken, m.max_pool_amount(false).unwrap(), other = m.max_pool_amount(true).unwrap());
+        row!(m, v, MaxPoolValueForDepositForLongToken, m.max_pool_value_for_deposit(true).unwrap(), other = m.max_pool_value_for_deposit(false).unwrap());
+        row!(m, v, MaxPoolValueForDepositForShortToken, m.max_pool_value_for_deposit(false).unwrap(), other = m.max_pool_value_for_deposit(true).unwrap());
+        row!(m, v, MaxOpenInterestForLong, m.max_open_interest(true).unwrap(), other = m.max_open_interest(false).unwrap());
+        row!(m, v, MaxOpenInterestForShort, m.max_open_interest(false).unwrap(), other = m.max_open_interest(true).unwrap());
+    }
+
+    /// closed-market parameter switch: the MarketClosed* keys feed the model iff the market is closed
+    /// AND EnableMarketClosedParams is set; otherwise the open-market keys do.
+    #[kani::proof]
+    fn c16_model_params_closed_market_switch() {
+        let mut m: Box<Market> = Box::new(bytemuck::Zeroable::zeroed());
+        let closed: bool = kani::any();
+        let enabled: bool = kani::any();
+        m.set_flag(MarketFlag::Closed, closed);
+        m.set_config_flag_by_key(MarketConfigFlag::EnableMarketClosedParams, enabled);
+        let vals: [u128; 8] = kani::any();
+        kani::assume(vals[0] != 0 && vals[1] != 0);
+        *m.get_config_by_key_mut(K::MinCollateralFactorForLiquidation).unwrap() = vals[0];
+        *m.get_config_by_key_mut(K::MarketClosedMinCollateralFactorForLiquidation).unwrap() = vals[1];
+        *m.get_config_by_key_mut(K::BorrowingFeeBaseFactorForLong).unwrap() = vals[2];
+        *m.get_config_by_key_mut(K::BorrowingFeeBaseFactorForShort).unwrap() = vals[3];
+        *m.get_config_by_key_mut(K::MarketClosedBorrowingFeeBaseFactor).unwrap() = vals[4];
+        *m.get_config_by_key_mut(K::BorrowingFeeAboveOptimalUsageFactorForLong).unwrap() = vals[5];
+        *m.get_config_by_key_mut(K::BorrowingFeeAboveOptimalUsageFactorForShort).unwrap() = vals[6];
+        *m.get_config_by_key_mut(K::MarketClosedBorrowingFeeAboveOptimalUsageFactor).unwrap() = vals[7];
+        let skip_open: bool = kani::any();
+        let skip_closed: bool = kani::any();
+        m.set_config_flag_by_key(MarketConfigFlag::SkipBorrowingFeeForSmallerSide, skip_open);
+        m.set_config_flag_by_key(MarketConfigFlag::MarketClosedSkipBorrowingFeeForSmallerSide, skip_closed);
+        let use_closed = closed && enabled;
+        let pp = m.position_params().unwrap();
+        let kink = m.borrowing_fee_kink_model_params().unwrap();
+        let bp = m.borrowing_fee_params().unwrap();
+        if use_closed {
+            assert!(*pp.min_collateral_factor_for_liquidation() == vals[1]);
+            assert!(*kink.base_borrowing_factor(true) == vals[4] && *kink.base_borrowing_factor(false) == vals[4]);
+            assert!(*kink.above_optimal_usage_borrowing_factor(true) == vals[7] && *kink.above_optimal_usage_borrowing_factor(false) == vals[7]);
+            assert!(bp.skip_borrowing_fee_for_smaller_side() == skip_closed);
+        } else {
+            assert!(*pp.min_collateral_factor_for_liquidation() == vals[0]);
+            assert!(*kink.base_borrowing_factor(true) == vals[2] && *kink.base_borrowing_factor(false) == vals[3]);
+            assert!(*kink.above_optimal_usage_borrowing_factor(true) == vals[5] && *kink.above_optimal_usage_borrowing_factor(false) == vals[6]);
+            assert!(bp.skip_borrowing_fee_for_smaller_side() == skip_open);
+        }
+        let ignore: bool = kani::any();
+        m.set_config_flag_by_key(MarketConfigFlag::IgnoreOpenInterestForUsageFactor, ignore);
+        assert!(m.ignore_open_interest_for_usage_factor().unwrap() == ignore);
+        kani::cover!(use_closed);
+        kani::cover!(closed && !enabled);
     }
 }
